@@ -342,6 +342,13 @@ func propertyFailsL(prop, op, res, lean string) (why string) {
 		if base == "rembto" {
 			return rembtoOracle(args, res)
 		}
+		if (base == "uenc" || base == "cenc") && isOK {
+			for _, p := range getPackets(NewR(args)) {
+				if why := limitExceeded(kindName(p), bodyTokens(p)); why != "" {
+					return "Marshal of a list accepted a member beyond a wire limit: " + why
+				}
+			}
+		}
 		if base == "enc" && isOK {
 			if why := limitExceeded(kind, args); why != "" {
 				return "Marshal accepted a value beyond a wire limit: " + why
